@@ -825,6 +825,95 @@ def c03_check(x, cx, bad):
     return tuple(sorted((i, len(v)) for i, v in cx['res'].items()))
 
 
+# ---------------------------------------------------------------- C18: the recorded blocks while another thread encodes
+
+C18_PLANS = {
+    # thread 0 re-validates a recorded block in full (real scrypt) / recomputes the recorded ids from the fields; thread 1
+    # encodes other recorded objects (what the networking thread does when it sends or relays)
+    'validate-block-2-vs-encode-block-3': ('validate', 2, 3),
+    'validate-block-1-vs-encode-genesis': ('validate', 1, 0),
+    'recompute-ids-vs-encode-block-1': ('ids', None, 1),
+}
+
+
+def c18_world():
+    if 'c18' in _W:
+        return _W['c18']
+    from skepticoin import consensus, serialization
+    from skepticoin.coinstate import CoinState
+    from skepticoin.datatypes import Block
+    from skepticoin.genesis import genesis_block_data
+    chain_dir = os.path.join(os.environ.get('VERIF_REPO', '/repo'), 'tests', 'testdata', 'chain')
+    raws = [genesis_block_data] + [open(os.path.join(chain_dir, f), 'rb').read() for f in sorted(os.listdir(chain_dir))][:3]
+    # the real scrypt, memoised on its input (it is a function; a corrupted input is a different key and is computed afresh)
+    real = consensus.scrypt
+    memo = {}
+
+    def scrypt_memo(*a, **k):
+        key = (a, tuple(sorted(k.items())))
+        if key not in memo:
+            memo[key] = real(*a, **k)
+        return memo[key]
+    seams.rebind(consensus, 'scrypt', scrypt_memo)
+    seams.lower_horizon()
+    states = [CoinState.empty().add_block_no_validation(Block.deserialize(raws[0]))]
+    for r in raws[1:]:
+        states.append(states[-1].add_block_no_validation(Block.deserialize(r)))
+    _W['c18'] = dict(raws=raws, states=states, trace={serialization.__file__: 'line'})
+    return _W['c18']
+
+
+def c18_make(name):
+    from skepticoin import consensus
+    from skepticoin.datatypes import Block, BlockHeader, BlockSummary, PowEvidence
+    W = c18_world()
+    kind, hv, he = C18_PLANS[name]
+    res = {}
+
+    def t0():
+        if kind == 'validate':
+            b = Block.deserialize(W['raws'][hv])
+            try:
+                consensus.validate_block_in_coinstate(b, W['states'][hv - 1])
+                res['validated'] = True
+            except Exception as e:
+                res['validated'] = repr(e)[:120]
+        else:
+            out = []
+            for r in W['raws']:
+                b = Block.deserialize(r)
+                s, e = b.header.summary, b.header.pow_evidence
+                h2 = BlockHeader(BlockSummary(s.height, s.previous_block_hash, s.merkle_root_hash, s.timestamp, s.target, s.nonce),
+                                 PowEvidence(e.summary_hash, e.chain_sample, e.block_hash))
+                out.append((h2.hash(), b.hash(), Block(h2, list(b.transactions)).serialize() == r))
+            res['ids'] = out
+
+    def t1():
+        b = Block.deserialize(W['raws'][he])
+        res['encoded'] = (Block(b.header, list(b.transactions)).serialize() == W['raws'][he],
+                          [t.serialize() for t in b.transactions] == [enc.enc_tx(t) for t in b.transactions])
+    return [t0, t1], dict(res=res, kind=kind, hv=hv)
+
+
+def c18_check(x, cx, bad):
+    for i, o in enumerate(x.outcome):
+        if o is not None and o[0] == 'exc':
+            bad.append(('recorded-thread-raises', "thread %d raises %r" % (i, o[1])))
+    if bad:
+        return None
+    r = cx['res']
+    if cx['kind'] == 'validate' and r.get('validated') is not True:
+        bad.append(('recorded-block-refused-under-threads', "recorded block %d fails the node's full validation (real scrypt) while "
+                    "another thread is encoding a block: %s" % (cx['hv'], r.get('validated'))))
+    if cx['kind'] == 'ids' and any(a != b or not same for a, b, same in r.get('ids', [])):
+        bad.append(('recorded-id-under-threads', "a recorded block rebuilt from its fields does not keep its id / encoding while "
+                    "another thread is encoding a block"))
+    if r.get('encoded') not in (None, (True, True)):
+        bad.append(('recorded-encoding-under-threads', "a recorded block does not re-encode to its recorded bytes while another "
+                    "thread validates / hashes"))
+    return (repr(r.get('validated')), r.get('encoded'))
+
+
 def node_level_rejections(names):
     """(sequential, no schedule exploration) every rule-breaking candidate block of the C01 alphabet is delivered by a
     peer to a real node whose chain state came from start-up alone / from start-up plus a block its own miner found:
@@ -886,6 +975,7 @@ FAMILIES = {
     'MNc': (MN_PLANS, mn_world_coarse, mn_make, mn_check),
     'C17': (C17_PLANS, c17_world, c17_make, c17_check),
     'C03': (C03_PLANS, c03_world, c03_make, c03_check),
+    'C18': (C18_PLANS, c18_world, c18_make, c18_check),
 }
 
 
